@@ -10,6 +10,7 @@ func verifStep(r *Raft)                                  {}
 func verifCommit(r *Raft)                                {}
 func verifAppend(s *storage, e *entry)                   {}
 func verifRemoveGTE(s *storage, index uint64)            {}
+func verifRemoveGTEBegin(s *storage, index uint64)       {}
 func verifClearLog(s *storage)                           {}
 func verifCompact(r *Raft)                               {}
 func verifRPC(r *Raft, rpc *rpc)                         {}
